@@ -24,8 +24,14 @@ GRAMMARS = [
     'start = { #tg = (word ~ "b") | word }\nword = { ASCII_ALPHA_LOWER+ }\n',
     'start = { (!NEWLINE ~ ANY)* ~ NEWLINE? ~ EOI }\nCOMMENT = _{ "#" ~ (!"#" ~ ANY)* ~ "#" }\n',
     'start = ${ LETTER+ ~ (" " ~ NUMBER)? }\n',
+    # the same alternatives in different roles (fused SKIP repeat / plain choice / case-insensitive)
+    'start = { word+ ~ EOI }\nword = { ASCII_ALPHA+ }\nWHITESPACE = _{ " " | "\\t" }\n',
+    'start = { word ~ sep ~ word ~ EOI }\nword = @{ ASCII_ALPHA+ }\nsep = { (" " | "\\t") }\n',
+    'start = { item ~ (("," | ";") ~ item)* ~ EOI }\nitem = @{ ASCII_DIGIT+ }\nWHITESPACE = _{ "," | ";" }\n',
+    'start = { ("a" | "b" | "ab")+ ~ (^"a" | ^"b")? }\n',
+    'start = { (^"a" | ^"b")+ ~ ("a" | "b" | "ab")? ~ EOI }\n',
 ]
-INPUTS = ["", "a", "ab", "ff!", "xyz", "a1\n", "a b\n", "1, 2.5,3", "1,", "ab=ab", "ab=ac", "wordb", "word", "#c#x\n",
+INPUTS = ["ab  \t cd", "ab  cd", "ab cd", "1,;2", "1,2;3", "abAB", "ABab", "", "a", "ab", "ff!", "xyz", "a1\n", "a b\n", "1, 2.5,3", "1,", "ab=ab", "ab=ac", "wordb", "word", "#c#x\n",
           "é 5", "g", "A\r\n", "12", "ab ab a"]
 MODES = ("I", "O", "IG", "OG")
 
